@@ -1,0 +1,84 @@
+//go:build verif
+
+package cisco
+
+// Export for the verification harness of property C07: the final clean-up
+// deleteUnused is run on a synthetic table of device commands with given
+// marks. Added file only; not part of the normal build.
+
+import "fmt"
+
+type VerifC07Sub struct {
+	Needed bool
+	Refs   []int
+}
+
+type VerifC07Cmd struct {
+	Needed   bool
+	ToDelete bool
+	Refs     []int
+	Subs     []VerifC07Sub
+}
+
+// One (prefix, name) entry of the device's lookup table.
+type VerifC07Obj struct {
+	ID     int
+	Kind   int  // prefix is "kind<Kind>"
+	Tagged bool // name carries "-DRC-"
+	Clear  bool // removed by "clear configure"
+	Cmds   []VerifC07Cmd
+}
+
+func VerifC07Name(o VerifC07Obj) (prefix, name string) {
+	prefix = fmt.Sprintf("kind%d", o.Kind)
+	name = fmt.Sprintf("n%03d", o.ID)
+	if o.Tagged {
+		name += "-DRC-0"
+	}
+	return
+}
+
+// VerifDeleteUnused runs the real deleteUnused and returns the emitted changes.
+func VerifDeleteUnused(objs []VerifC07Obj) []string {
+	byID := make(map[int]VerifC07Obj)
+	for _, o := range objs {
+		byID[o.ID] = o
+	}
+	refPrefixes := func(refs []int) (prefixes, names []string) {
+		for _, r := range refs {
+			if t, found := byID[r]; found {
+				p, n := VerifC07Name(t)
+				prefixes = append(prefixes, p)
+				names = append(names, n)
+			} else {
+				prefixes = append(prefixes, "kind0")
+				names = append(names, fmt.Sprintf("missing%d", r))
+			}
+		}
+		return
+	}
+	lookup := make(objLookup)
+	for _, o := range objs {
+		prefix, name := VerifC07Name(o)
+		for j, vc := range o.Cmds {
+			typ := &cmdType{prefix: prefix, clearConf: o.Clear}
+			c := &cmd{typ: typ, needed: vc.Needed, toDelete: vc.ToDelete,
+				name: name, orig: fmt.Sprintf("%s %s line%d", prefix, name, j)}
+			typ.ref, c.ref = refPrefixes(vc.Refs)
+			for k, vs := range vc.Subs {
+				st := &cmdType{prefix: "sub"}
+				sc := &cmd{typ: st, needed: vs.Needed, subCmdOf: c,
+					orig: fmt.Sprintf("sub%d", k)}
+				st.ref, sc.ref = refPrefixes(vs.Refs)
+				c.sub = append(c.sub, sc)
+			}
+			if lookup[prefix] == nil {
+				lookup[prefix] = make(map[string][]*cmd)
+			}
+			lookup[prefix][name] = append(lookup[prefix][name], c)
+		}
+	}
+	s := &State{a: &Config{lookup: lookup}, b: &Config{lookup: make(objLookup)}}
+	s.deleteUnused()
+	return s.Changes
+}
